@@ -2113,6 +2113,9 @@ func (query *Query) execAndPostProcess() (result any, err error) {
 	}()
 	rs, err := query.exec()
 	if err != nil {
+		// the background calls started before the failure are not left
+		// running behind the caller's back
+		query.wg.Wait()
 		return nil, err
 	}
 	query.wg.Wait()
